@@ -28,12 +28,17 @@ CallStep(st, fr) ==
       term == t = "E" \/ t = "C"
   IN
   CASE k = "probe" ->
-         LET st1 == [st EXCEPT !.log = Append(@, LogEntry(nd.a, t, v, st.now))] IN
-         IF nd.b = 1 /\ t = "N" /\ v[1] = "g"      \* reaction: subscribe a fresh probe to the announced group
-         THEN LET pid == st1.nprobe + 1
-                  pn == NextNode(st1)
-                  st2 == AddNode([st1 EXCEPT !.nprobe = pid], [Node("probe", 0) EXCEPT !.a = pid])
-              IN Push(st2, <<Fr("ssub", v[2], "", U, pn), F0("dropv")>>)
+         LET st1 == [st EXCEPT !.log = Append(@, LogEntry(nd.a, t, v, st.now))]
+             pid == st1.nprobe + 1
+             pn == NextNode(st1)
+             newprobe(rb) == AddNode([st1 EXCEPT !.nprobe = pid], [Node("probe", 0) EXCEPT !.a = pid, !.b = rb])
+         IN
+         IF nd.b = 1 /\ t = "N" /\ v[1] = "g"      \* reaction 1: attach a fresh probe to the announced group
+         THEN Push(newprobe(0), <<Fr("ssub", v[2], "", U, pn), F0("dropv")>>)
+         ELSE IF nd.b = 2 /\ t = "N" /\ ~nd.g       \* reaction 2: on the first item subscribe the same pipeline (AST c) again
+         THEN Push([newprobe(0) EXCEPT !.nodes[n].g = TRUE], <<Sub(nd.c, pn), F0("dropv")>>)
+         ELSE IF nd.b = 3 /\ t = "N"                \* reaction 3: on every item subscribe a fresh probe to the same pipeline
+         THEN Push(newprobe(0), <<Sub(nd.c, pn), F0("dropv")>>)
          ELSE st1
     [] k \in UnaryKinds ->
          IF nd.dead THEN Fault(st, "spec:call-after-move")
@@ -285,6 +290,11 @@ SubStep(st, fr) ==
          LET st1 == AddNode(AddNode(st, [Node("fincell", 0) EXCEPT !.m = md, !.b = PB(x)]),
                             [Node("finobs", n) EXCEPT !.c = id]) IN
          Push(st1, <<Sub(S1(x), id + 1), F1("mkfin", id)>>)
+    [] o = "share" ->             \* ShareOp: one cell per built operator value (AST x), held for the whole call
+         LET cell == st.shared[x] IN
+         Push(st, <<Acq(cell), Fr("share2", cell, "", U, x), F1("pushn", n), Rel(cell)>>)
+    [] o = "publish" ->           \* ConnectableObservable::actual_subscribe = subscribe its subject
+         Push(st, <<Fr("ssub", st.nodes[st.shared[x]].n, "", U, n)>>)
     [] o \in SchedOps -> SchedSub(st, fr)
     [] OTHER -> Fault(st, "spec:unknown-op")
 
@@ -308,6 +318,24 @@ Step(st) ==
          LET nd == s0.nodes[fr.n] vc == s0.nodes[nd.c] IN
          IF IsSome(vc.v) THEN Push([s0 EXCEPT !.nodes[nd.c].v = NoneV], <<CallN(nd.d, Unwrap(vc.v))>>) ELSE s0
     [] f = "setstatus" -> [s0 EXCEPT !.nodes[fr.n].n = fr.x]
+    [] f = "share2" ->            \* holding the share cell (node fr.n: g = connected, n = subject); next frame carries the observer
+         LET cell == s0.nodes[fr.n]
+             obsn == s0.stack[1].n
+             rest == [s0 EXCEPT !.stack = Tail(@)] IN
+         IF cell.g
+         THEN Push(rest, <<Fr("ssub", cell.n, "", U, obsn), F1("mkrefcnt", cell.n)>>)
+         ELSE LET st1 == NewSubject(rest, FALSE, U)
+                  sid == Len(st1.subj)
+                  on == NextNode(st1)
+                  st2 == AddNode([st1 EXCEPT !.nodes[fr.n].g = TRUE, !.nodes[fr.n].n = sid], [Node("subjobs", 0) EXCEPT !.c = sid])
+              IN (* the first subscriber joins the subject, THEN the subject is connected to the source; *)
+                 (* the subscription connect() returns is dropped                                        *)
+                 Push(st2, <<Fr("ssub", sid, "", U, obsn), Sub(S1(fr.x), on), F0("dropv"), F1("mkrefcnt", sid)>>)
+    [] f = "pushn" -> s0          \* operand of share2
+    [] f = "connect" ->           \* ConnectableObservable::connect(): subscribe the subject (as an observer) to the source
+         LET cell == s0.nodes[s0.shared[fr.x]]
+             on == NextNode(s0) IN
+         Push(AddNode(s0, [Node("subjobs", 0) EXCEPT !.c = cell.n]), <<Sub(S1(fr.x), on), F1("sethandle", fr.n)>>)
     [] f = "sethandle" -> [PopV(s0) EXCEPT !.handles[fr.n] = TopV(s0)]
     [] f \in SubjectFrames -> SubjectStep(s0, fr)
     [] f \in SubsFrames -> SubsStep(s0, fr)
@@ -332,7 +360,7 @@ Inject(st, s) ==
   CASE s.k = "sub" ->            \* subscribe AST a with a fresh probe (reaction code b), keep the handle in slot t
          LET pid == st0.nprobe + 1
              pn == NextNode(st0)
-             st1 == AddNode([st0 EXCEPT !.nprobe = pid], [Node("probe", 0) EXCEPT !.a = pid, !.b = s.b])
+             st1 == AddNode([st0 EXCEPT !.nprobe = pid], [Node("probe", 0) EXCEPT !.a = pid, !.b = s.b, !.c = s.a])
          IN Push([st1 EXCEPT !.handles = Append(@, 0)], <<Sub(s.a, pn), F1("sethandle", Len(st1.handles) + 1)>>)
     [] s.k = "emit" ->           \* notification (t, v) on hot subject a
          Push(st0, SubjEmit(st0, s.a, s.t, s.v))
@@ -349,6 +377,17 @@ Inject(st, s) ==
     [] s.k = "bnext" -> Push(st0, <<Fr("bnext", s.a, "", s.v, 0)>>)
     [] s.k = "bpeek" -> Push(st0, <<F1("bpeek", s.a)>>)
     [] s.k = "bnextby" -> Push(st0, <<F2("bnextby", s.a, s.b)>>)
+    [] s.k = "build" -> st0      \* assembling a pipeline performs no work
+    [] s.k = "connect" ->        \* connect() on the published observable AST a; keep the returned subscription as a handle
+         Push([st0 EXCEPT !.handles = Append(@, 0)], <<F2("connect", Len(st0.handles) + 1, s.a)>>)
+    [] s.k = "bterm" ->          \* error / complete on a BehaviorSubject
+         Push(st0, SubjEmit(st0, s.a, s.t, s.v))
+    [] s.k = "mappend" ->        \* MultiSubscription API: append handle b to the composite handle a
+         Push(st0, <<F2("mappend", st0.subs[st0.handles[s.a]].a, st0.handles[s.b])>>)
+    [] s.k = "mnew" ->           \* a fresh, empty MultiSubscription kept as a handle
+         LET id == NextNode(st0)
+             st1 == AddSub(AddNode(st0, [Node("multicell", 0) EXCEPT !.m = Mode(st0)]), SubRec("multi", id, 0)) IN
+         [st1 EXCEPT !.handles = Append(@, Len(st1.subs))]
     [] s.k \in SchedStims -> SchedInject(st0, s)
     [] OTHER -> Fault(st0, "spec:unknown-stimulus")
 
@@ -361,7 +400,19 @@ Obs(st) == [log |-> st.log, ret |-> st.ret, fault |-> st.fault, cnt |-> st.cnt]
 RECURSIVE WithSubjects(_, _, _)
 WithSubjects(st, k, beh) == IF k = 0 THEN st ELSE WithSubjects(NewSubject(st, beh, I(9)), k - 1, beh)
 
-InitMachine(arc, nSubj, nBeh, nHotC) ==
-  LET s0 == [St0 EXCEPT !.arc = arc, !.hots = [i \in 1..nHotC |-> <<>>]] IN
-  WithSubjects(WithSubjects(s0, nSubj, FALSE), nBeh, TRUE)
+(* operator values that carry shared state of their own (share: the Connectable/Connected cell; *)
+(* publish: its subject) exist once per built pipeline: allocated for AST indices lo..hi       *)
+RECURSIVE WithShared(_, _, _)
+WithShared(st, x, hi) ==
+  IF x > hi THEN st
+  ELSE IF Op(x) = "share"
+  THEN WithShared([AddNode(st, [Node("sharecell", 0) EXCEPT !.m = Mode(st)]) EXCEPT !.shared[x] = NextNode(st)], x + 1, hi)
+  ELSE IF Op(x) = "publish"
+  THEN LET st1 == NewSubject(st, FALSE, U) IN
+       WithShared([AddNode(st1, [Node("sharecell", 0) EXCEPT !.n = Len(st1.subj), !.g = TRUE]) EXCEPT !.shared[x] = NextNode(st1)], x + 1, hi)
+  ELSE WithShared(st, x + 1, hi)
+
+InitMachine(arc, nSubj, nBeh, nHotC, lo, hi) ==
+  LET s0 == [St0 EXCEPT !.arc = arc, !.hots = [i \in 1..nHotC |-> <<>>], !.shared = [x \in 1..Len(Prog) |-> 0]] IN
+  WithShared(WithSubjects(WithSubjects(s0, nSubj, FALSE), nBeh, TRUE), lo, hi)
 =============================================================================
